@@ -15,6 +15,7 @@ import (
 
 	yae "github.com/goghcrow/yae"
 	"github.com/goghcrow/yae/closure"
+	"github.com/goghcrow/yae/conv"
 	"github.com/goghcrow/yae/debug"
 	"github.com/goghcrow/yae/val"
 )
@@ -239,6 +240,7 @@ func runC19(r *Run) {
 		judge(c)
 		r.Sample(c.src)
 	}
+	c19Facade(r)
 	n := 800
 	if r.Tier == "thorough" {
 		n = 40000
@@ -246,5 +248,76 @@ func runC19(r *Run) {
 	for i := 0; i < n; i++ {
 		g := &progGen{r: r, vars: vars, fns: stdFns, useFns: r.Rng.Intn(3) == 0, trace: r.Rng.Intn(4) == 0}
 		judge(evalCase{g.Gen(g.randType(1), 1+r.Rng.Intn(3)), g.useFns})
+	}
+}
+
+// c19Facade: the façade yae.Debug on host environments, including programs that FAIL at run time: the outcome equals
+// yae.Eval's, and the report equals the rendering of the record that the debug closure fills when run directly on the
+// same environment (so it keeps the source as its first line and shows the values recorded before the failure).
+func c19Facade(r *Run) {
+	host := map[string]interface{}{"x": 5.0, "y": -2.5, "z": 0.0, "s": "hé", "b": true, "f": false, "xs": []float64{1, 2, 3}, "m": map[string]float64{"k": 1}, "ms": map[string]string{"hé": "v"},
+		"o": struct {
+			P float64
+			Q string
+		}{7, "w"}}
+	srcs := []string{`x + y`, `xs[1] * x`, `x + xs[9]`, `xs[x + 4] + y`, `m["k"] + m["nokey"]`, `len(s) + m[s]`, `x % z`, `y + x % z + x`, `b ? xs[7] : x`, `f ? xs[7] : x`, `[x, xs[3]][0]`,
+		`o.p + xs[o.p]`, `s + string(xs[5])`, `if(b, x, xs[9]) + if(f, x, xs[9])`, `b && xs[9] > 0`, `f && xs[9] > 0`, `match("[", s)`, `x`, `xs`, `1 + 2`, `o.q + s`, `max(x, xs[4])`, `é`, `x +`}
+	for _, src := range srcs {
+		what := fmt.Sprintf("yae.Debug(%q, host map)", src)
+		mark(what)
+		var v1, v2 *val.Val
+		var rep string
+		var e1, e2 error
+		if pan, msg := protect(func() { v1, rep, e1 = yae.Debug(src, host) }); pan {
+			r.Violate("debug-panics", what, firstLine(msg))
+			continue
+		}
+		if pan, _ := protect(func() { v2, e2 = yae.Eval(src, host) }); pan {
+			continue
+		}
+		r.Count("facade debug runs")
+		cls := func(v *val.Val, e error) string {
+			if e != nil {
+				return "error " + classify(e.Error())
+			}
+			return string(ValSx(v))
+		}
+		if cls(v1, e1) != cls(v2, e2) {
+			r.Violate("debug-changes-result", what, fmt.Sprintf("yae.Eval: %s, yae.Debug: %s", trunc(cls(v2, e2), 200), trunc(cls(v1, e1), 200)))
+		}
+		// the same program through the debug compiler with a record read directly
+		want, ran := "", false
+		protect(func() {
+			te, err := conv.TypeEnvOf(host)
+			if err != nil {
+				return
+			}
+			e := yae.NewExpr()
+			e.UseCompiler(closure.DebugCompile)
+			cl, err := e.Compile(src, te)
+			if err != nil {
+				return
+			}
+			ve, err := conv.ValEnvOf(host)
+			if err != nil {
+				return
+			}
+			rcd := debug.NewRecord()
+			ve.Dgb = rcd
+			cl(ve)
+			want, ran = rcd.Render(src), true
+		})
+		if !ran {
+			r.Count("facade debug: rejected")
+			continue
+		}
+		if e1 != nil {
+			r.Count("facade debug: run-time failures")
+		}
+		if rep != want {
+			r.Violate("facade-report-differs-from-record", what, fmt.Sprintf("report %q, the record of the same evaluation renders as %q", trunc(rep, 300), trunc(want, 300)))
+		} else if lines := strings.Split(rep, "\n"); lines[0] != src {
+			r.Violate("report-first-line", what, "the first line is not the source")
+		}
 	}
 }
